@@ -74,6 +74,13 @@ func run(c *harness.Ctx, i int) {
 	}
 	kind := []string{"chunker", "chunker", "equal-size", "zeros-mix"}[rng.Intn(4)]
 	nchunksWanted := []int{0, 1, 2, 5, 9, 10, 11, 40, 100, 379, 700}[rng.Intn(11)]
+	// indexes of thousands of (tiny) chunks with few workers: the batches handed to a worker then hold hundreds of
+	// chunks, which is where anything that treats a batch in steps shows
+	big := i%20 == 7
+	if big {
+		kind = "equal-size"
+		nchunksWanted = []int{1000, 1500, 2500, 5000, 12000}[rng.Intn(5)]
+	}
 	var blob []byte
 	var idx desync.Index
 	switch kind {
@@ -82,6 +89,9 @@ func run(c *harness.Ctx, i int) {
 		idx = dsu.RefIndex(blob, sz)
 	case "equal-size":
 		cs := 32 + rng.Intn(200)
+		if big {
+			cs = 8 + rng.Intn(40)
+		}
 		blob = dsu.MakeBlob(rng, "random", nchunksWanted*cs, sz)
 		idx = desync.Index{Index: desync.FormatIndex{FeatureFlags: desync.CaFormatSHA512256, ChunkSizeMin: uint64(cs), ChunkSizeAvg: uint64(cs), ChunkSizeMax: uint64(cs)}}
 		for k := 0; k < nchunksWanted; k++ {
@@ -98,6 +108,9 @@ func run(c *harness.Ctx, i int) {
 	if rng.Intn(3) == 0 {
 		n = []int{1, 2, 3, 10, 37, 64}[rng.Intn(6)]
 	}
+	if big {
+		n = []int{1, 1, 2, 3, 10}[rng.Intn(5)]
+	}
 	batch := nc/(n*10) + 1
 	mutation := []string{"none", "flip-first", "flip-last", "flip-last", "flip-boundary", "flip-random", "flip-duplicate", "truncate", "extend", "swap-equal", "flip-tail-batch"}[rng.Intn(11)]
 	data := append([]byte(nil), blob...)
@@ -105,9 +118,21 @@ func run(c *harness.Ctx, i int) {
 		ch := idx.Chunks[k]
 		data[ch.Start+uint64(rng.Intn(int(ch.Size)))] ^= 1 << uint(rng.Intn(8))
 	}
+	if big && rng.Intn(2) == 0 {
+		mutation = "flip-round-offset"
+	}
 	switch {
 	case nc == 0 && mutation != "extend":
 		mutation = "none"
+	case mutation == "flip-round-offset":
+		// a chunk at a round position (or next to one) counted from the start of some batch
+		o := []int{50, 64, 100, 128, 200, 250, 256, 300, 400, 500, 512, 1000}[rng.Intn(12)] + rng.Intn(3) - 1
+		b := rng.Intn((nc + batch - 1) / batch)
+		k := b*batch + o
+		if o >= batch || k >= nc {
+			k = rng.Intn(nc)
+		}
+		flipIn(k)
 	case mutation == "flip-first":
 		flipIn(0)
 	case mutation == "flip-last":
